@@ -524,6 +524,13 @@ func replayC10(cfg lib.Cfg, out *lib.Out) error {
 		return err
 	}
 	ds := rep.FailingInput.Desc
+	if ds.Op == "shared-decoder" { // the scenario does not depend on the particular values: run it again
+		if err := sharedDecoderCases(out, lib.NewRNG(cfg.Seed)); err != nil {
+			return err
+		}
+		out.Notes["replay"] = cfg.Replay
+		return out.Flush()
+	}
 	job := []jobDecl{{JSON: ds.JSON, Base: abi.UnHex(ds.Input), Muts: []abi.Mut{{Kind: "id"}}}}
 	jobFile := filepath.Join(cfg.Out, "job_C10.json")
 	rawj, _ := json.Marshal(job)
